@@ -1,6 +1,7 @@
 import I18n.Lemmas.DateTags
 import I18n.Lemmas.DateRe
 import I18n.Lemmas.DateSort
+import I18n.Lemmas.DateTzRef
 /-
 Property C18 — date fields are normalised canonically and judged by the real calendar.
 
@@ -26,10 +27,41 @@ theorem regex_pin :
 theorem epoch_pin : DateTables.epochMicros = gettextEpoch.minutes * 60000000
     ∧ DateTables.boilerplateDate = "YEAR-MO-DA HO:MI+ZONE".toList := ⟨epoch_eq, by decide⟩
 
+/-- the white-space class dumped from the running interpreter (`str.isspace` = `\s` under both patterns' flags) is the
+    expected one: 29 code points in 10 ranges (Unicode White_Space + the separators U+001C..U+001F) -/
+theorem whitespace_pin : DateTables.whitespace = [(0x9, 0xD), (0x1C, 0x20), (0x85, 0x85), (0xA0, 0xA0), (0x1680, 0x1680),
+    (0x2000, 0x200A), (0x2028, 0x2029), (0x202F, 0x202F), (0x205F, 0x205F), (0x3000, 0x3000)] := rfl
+
 /-- every abbreviation of the live table is alphabetic (so it cannot be confused with a numeric offset), none is listed
     twice, and every offset has the form `±HHMM` -/
 theorem table_pin : DateTables.timezones.all entryOk = true ∧ keysDistinct DateTables.timezones = true :=
   ⟨table_ok, table_distinct⟩
+
+/-- PIN against the HAND-MAINTAINED reference of the zone abbreviations (Spec/TimezonesRef.lean: tzdata 2014e, not regenerated):
+    every abbreviation the reference knows is in the tool's table (data/timezones as loaded by `lib.gettext`), and every offset
+    the reference lists for it is still one of its offsets there: `Ref.offsets a ⊆ Generated.offsets a`.  The data file may add
+    abbreviations, add offsets to an abbreviation (more ambiguity ⇒ more rejections) and be re-ordered; it must not drop an
+    offset of a known abbreviation — that would make an ambiguous abbreviation "unique" and mis-normalise dates written with it. -/
+theorem timezones_ref_pin :
+    ∀ a ∈ Spec.TimezonesRef.names, ∃ os, OffsetsOf a os ∧ ∀ o ∈ Spec.TimezonesRef.offsets a, o ∈ os := by
+  intro a ha
+  obtain ⟨e, he, h1, h2⟩ := keptBy_spec ref_kept ha
+  exact ⟨e.2, ⟨e, he, h1, rfl⟩, h2⟩
+
+/-- the reference rows themselves: alphabetic abbreviation, at least one offset, offsets of the form `±HHMM` -/
+theorem timezones_ref_wellformed : Spec.TimezonesRef.table.all (fun r => entryOk r && !r.2.isEmpty) = true := ref_rows_ok
+
+/-- **unique_offset_sound**: when the tool's table gives a unique offset for an abbreviation the reference knows, the reference
+    has no other offset for it (what the statement calls "the unique offset of a known zone abbreviation" is not whatever the
+    data file says today) -/
+theorem unique_offset_sound {a z : List Char} (ha : a ∈ Spec.TimezonesRef.names) (h : OffsetsOf a [z]) :
+    ∀ o ∈ Spec.TimezonesRef.offsets a, o = z := by
+  obtain ⟨os, hos, hsub⟩ := timezones_ref_pin a ha
+  have e := (lookupTz_complete hos).symm.trans (lookupTz_complete h)
+  simp only [Option.some.injEq] at e
+  subst e
+  intro o ho
+  simpa using hsub o ho
 
 /-! ### the regexes mean the specification -/
 
@@ -140,6 +172,30 @@ theorem written_unique {s d t d' t' : List Char} {z z' : ZoneSpec} (h : Written 
   refine ⟨e.1, e.2.1, ?_⟩
   have := congrArg Zone.spec e.2.2
   rwa [spec_zoneOfSpec, spec_zoneOfSpec] at this
+
+/-- **fix_abbr_by_reference**: a date written with an abbreviation the reference knows is accepted only with an offset that
+    is the ONLY offset the reference has for it; in particular (`ref_ambiguous_rejected`) a date written with an abbreviation
+    for which the reference has two different offsets is never accepted, whatever the hint -/
+theorem fix_abbr_by_reference {s : List Char} {hint : Option (List Char)} {t date time a : List Char}
+    (h : fix s hint = .ok t) (hw : Written (strip s) date time (.abbr a)) (ha : a ∈ Spec.TimezonesRef.names) :
+    ∃ zone, t = date ++ ' ' :: time ++ zone ∧ OffsetsOf a [zone] ∧ ∀ o ∈ Spec.TimezonesRef.offsets a, o = zone := by
+  obtain ⟨d', t', z', zone, hw', hr, ht⟩ := fix_preserves h
+  obtain ⟨rfl, rfl, rfl⟩ := written_unique hw hw'
+  exact ⟨zone, ht, hr, unique_offset_sound ha hr⟩
+
+theorem ref_ambiguous_rejected {s : List Char} {hint : Option (List Char)} {date time a o₁ o₂ : List Char}
+    (hw : Written (strip s) date time (.abbr a)) (h₁ : o₁ ∈ Spec.TimezonesRef.offsets a) (h₂ : o₂ ∈ Spec.TimezonesRef.offsets a)
+    (hne : o₁ ≠ o₂) : ∀ t, fix s hint ≠ .ok t := by
+  intro t h
+  have ha : a ∈ Spec.TimezonesRef.names := by
+    simp only [Spec.TimezonesRef.offsets] at h₁
+    split at h₁
+    · rename_i e he
+      have hk : e.1 = a := by simpa using List.find?_some he
+      exact hk ▸ List.mem_map_of_mem (List.mem_of_find?_eq_some he)
+    · cases h₁
+  obtain ⟨zone, _, _, hz⟩ := fix_abbr_by_reference h hw ha
+  exact hne ((hz o₁ h₁).trans (hz o₂ h₂).symm)
 
 /-- **fix_accepts** (completeness): every header value the specification normalises is accepted, with that result -/
 theorem fix_accepts {s : List Char} {hint : Option (List Char)} {t : List Char} (h : Normalises (strip s) hint t) :
@@ -323,10 +379,21 @@ theorem NoCrash (c : Ctx) : checkDates c ≠ none := by
 
 /-! ### non-vacuity -/
 
-example : fix "2020-01-01T10:00:59 CEST".toList none = .ok "2020-01-01 10:00+0200".toList := by decide
+example : fix "2020-01-01T10:00:59 +0200".toList none = .ok "2020-01-01 10:00+0200".toList := by decide
+-- an abbreviation: its unique table offset, or rejection (stated so that adding an offset to CEST in data/timezones keeps it true)
+example : fix "2020-01-01T10:00:59 CEST".toList none =
+    (match lookupTz "CEST".toList with
+     | some [z] => .ok ("2020-01-01 10:00".toList ++ z)
+     | _ => .syntaxErr) := by decide
+example : lookupTz "CEST".toList = some ["+0200".toList] → fix "2020-01-01T10:00:59 CEST".toList none = .ok "2020-01-01 10:00+0200".toList := by
+  decide
 example : fix " 2012-02-29\n23:59 UTC-00:30 ".toList none = .ok "2012-02-29 23:59-0030".toList := by decide
 example : fix "2013-02-29 10:00+0100".toList none = .syntaxErr := by decide
 example : fix "2012-11-01 14:42 EST".toList none = .syntaxErr := by decide           -- ambiguous abbreviation
+example : fix "2012-06-01 12:00 MSK".toList none = .syntaxErr := by decide           -- +0300, but +0400 in 2011–2014
+example : Spec.TimezonesRef.offsets "MSK".toList = ["+0300".toList, "+0400".toList]
+    ∧ Spec.TimezonesRef.offsets "CET".toList = ["+0100".toList] ∧ Spec.TimezonesRef.offsets "JEST".toList = []
+    ∧ Spec.TimezonesRef.names.length = 210 := by decide +kernel
 example : fix "2012-11-01 14:42+2400".toList none = .syntaxErr := by decide
 example : fix "2012-11-01T14:42".toList (some "-0000".toList) = .ok "2012-11-01 14:42-0000".toList := by decide
 example : fix "2012-11-01T14:42".toList (some "Z".toList) = .hintErr := by decide
